@@ -29,7 +29,7 @@ Qed.
 
 Lemma inv_step s o : Inv s -> Inv (fst (step s o)).
 Proof.
-  intro I. destruct o as [c|c f i|c f i|c|c|c|live ids|df dids]; simpl.
+  intro I. destruct o as [c|c f i|c f i|c|c|c|live closing0 ids|df dids|slive sps]; simpl.
   - apply inv_add_channel; exact I.
   - pose proof (inv_add_channel s c I) as I1.
     destruct (aget c (add_channel s c)) as [ch|] eqn:E; simpl; [|exact I1].
@@ -45,6 +45,7 @@ Proof.
     + rewrite aget_adel_other in G by exact N. eauto.
   - exact I.
   - destruct (aget c s); exact I.
+  - exact I.
   - exact I.
   - exact I.
 Qed.
@@ -64,7 +65,7 @@ Proof. apply inv_run_from. apply inv_init. Qed.
 Lemma lookup_step s o c f : lookup (fst (step s o)) c f = mstep c f (lookup s c f) o.
 Proof.
   unfold lookup.
-  destruct o as [c'|c' f' i|c' f' i|c'|c'|c'|live ids|df dids]; simpl.
+  destruct o as [c'|c' f' i|c' f' i|c'|c'|c'|live closing0 ids|df dids|slive sps]; simpl.
   - (* AddChannel *)
     unfold add_channel. destruct (Z.eqb_spec c c') as [->|N].
     + destruct (aget c' s) eqn:E; [rewrite E; reflexivity|].
@@ -102,6 +103,7 @@ Proof.
     + rewrite aget_adel_other by exact N. reflexivity.
   - reflexivity.
   - destruct (aget c' s); reflexivity.
+  - reflexivity.
   - reflexivity.
   - reflexivity.
 Qed.
@@ -212,12 +214,13 @@ Definition touches (o : op) (c f : Z) : bool :=
 Lemma frame h o c f : touches o c f = false -> ids (members (h ++ [o]) c f) = ids (members h c f).
 Proof.
   intro T. rewrite members_snoc.
-  destruct o as [c'|c' f' i|c' f' i|c'|c'|c'|live l|df dids]; simpl in *.
+  destruct o as [c'|c' f' i|c' f' i|c'|c'|c'|live closing0 l|df dids|slive sps]; simpl in *.
   - destruct (Z.eqb c c'); [|reflexivity]. destruct (members h c f) as [[g|]|]; reflexivity.
   - destruct (Z.eqb c c'); [|reflexivity]. simpl in T. rewrite T.
     destruct (members h c f) as [[g|]|]; reflexivity.
   - rewrite T. reflexivity.
   - rewrite T. reflexivity.
+  - reflexivity.
   - reflexivity.
   - reflexivity.
   - reflexivity.
@@ -243,7 +246,7 @@ Lemma join_order h c f : subseq (ids (members h c f)) (adds_of h c f).
 Proof.
   induction h as [|o r IH] using rev_ind; [constructor|].
   rewrite members_snoc, adds_of_snoc.
-  destruct o as [c'|c' f' i|c' f' i|c'|c'|c'|live l|df dids]; simpl; rewrite ?app_nil_r.
+  destruct o as [c'|c' f' i|c' f' i|c'|c'|c'|live closing0 l|df dids|slive sps]; simpl; rewrite ?app_nil_r.
   - destruct (Z.eqb c c'); [|exact IH]. destruct (members r c f) as [[g|]|]; exact IH.
   - destruct (Z.eqb c c'); simpl; [|rewrite app_nil_r; exact IH].
     destruct (Z.eqb f f'); simpl.
@@ -256,6 +259,7 @@ Proof.
     destruct (members r c f) as [[g|]|]; simpl in *; try exact IH.
     eapply subseq_trans; [apply remove_first_subseq | exact IH].
   - destruct (Z.eqb c c'); [constructor | exact IH].
+  - exact IH.
   - exact IH.
   - exact IH.
   - exact IH.
@@ -275,7 +279,7 @@ Lemma exists_after_step h o c :
   end.
 Proof.
   unfold exists_after. rewrite members_snoc.
-  destruct o as [c'|c' f' i|c' f' i|c'|c'|c'|live l|df dids]; cbn [mstep]; try reflexivity.
+  destruct o as [c'|c' f' i|c' f' i|c'|c'|c'|live closing0 l|df dids|slive sps]; cbn [mstep]; try reflexivity.
   - destruct (Z.eqb c c'); [|reflexivity]. destruct (members h c 0); reflexivity.
   - destruct (Z.eqb c c'); [|reflexivity]. destruct (Z.eqb 0 f'); [reflexivity|].
     destruct (members h c 0); reflexivity.
@@ -313,4 +317,19 @@ Proof.
   unfold front_push, deliverable. induction l as [|x r IH]; simpl; [reflexivity|].
   destruct (zmem x live); simpl; [|exact IH].
   destruct (zmem x closing); simpl; rewrite IH; reflexivity.
+Qed.
+
+
+(* a sequence of pushes on one front-end: what push k delivers depends only on the live set, its own
+   id list and the writes that fail THIS time - never on what failed (or was listed) in earlier pushes *)
+Lemma front_seq_pointwise h live ps :
+  obs_at h (OFrontSeq live ps) = BDeliverSeq (map (fun p => front_push live (snd p) (fst p)) ps).
+Proof. reflexivity. Qed.
+
+Lemma front_seq_frame h live pre p post : exists dpre dpost,
+  obs_at h (OFrontSeq live (pre ++ p :: post)) = BDeliverSeq (dpre ++ front_push live (snd p) (fst p) :: dpost)
+  /\ length dpre = length pre /\ length dpost = length post.
+Proof.
+  exists (map (fun q => front_push live (snd q) (fst q)) pre), (map (fun q => front_push live (snd q) (fst q)) post).
+  rewrite front_seq_pointwise, map_app. cbn [map]. rewrite !map_length. auto.
 Qed.
